@@ -35,9 +35,13 @@ from .rt import crepr, freeze
 PROG_MODULE = "labsim_prog"
 
 
-def make_fn(name, argnames, defaults, impl):
-    """def name(a=<default0>, b=<default1>): return impl(a=a, b=b)  — a real def with real defaults."""
-    params = ", ".join(f"{a}=_d{i}" for i, a in enumerate(argnames))
+def make_fn(name, argnames, defaults, impl, posonly=0):
+    """def name(a=<default0>, b=<default1>): return impl(a=a, b=b)  — a real def with real defaults.
+    posonly: how many leading parameters are positional-only (def name(a=..., /, b=...))."""
+    plist = [f"{a}=_d{i}" for i, a in enumerate(argnames)]
+    if posonly and plist:
+        plist.insert(min(posonly, len(plist)), "/")
+    params = ", ".join(plist)
     passed = ", ".join(f"{a}={a}" for a in argnames)
     src = f"def {name}({params}):\n    return _impl({passed})\n"
     ns = {"_impl": impl, "__name__": PROG_MODULE}
@@ -792,7 +796,7 @@ class Program:
         name = n["name"]
         argnames = list(n.get("args", {}))
         fn = make_fn(name, argnames, [self.ref(n["args"][a]) for a in argnames], _body_impl(name, n.get("body") == "selector", tuple(n.get("mutates", ())), n.get("fails_if"),
-                                                                                               returns=self._returns(n)))
+                                                                                               returns=self._returns(n)), posonly=n.get("posonly", 0))
         kw = {}
         disp = n.get("dispatch")
         if disp is not None:
